@@ -21,7 +21,7 @@ _OUT = os.environ.get("VERIF_OUT", VERIF)
 RUNDIR = os.path.join(VERIF, "build", "run" if _OUT == VERIF else "run." + str(abs(hash(_OUT)) % 100000))
 REPLAYS = os.path.join(_OUT, "replays")
 EVIDENCE = os.path.join(_OUT, "evidence")
-KNOWN = os.path.join(VERIF, "known_findings.json")
+KNOWN = os.environ.get("VERIF_KNOWN", os.path.join(VERIF, "known_findings.json"))  # override: tools/test_known.py only
 CORPUS = os.path.join(VERIF, "corpus")
 NSHARDS = int(os.environ.get("VERIF_SHARDS", "16"))
 
@@ -346,6 +346,8 @@ def run_check(prop, tier, seed):
         seen_keys.add(key)
         name = re.sub(r"[^A-Za-z0-9_.-]+", "_", f"{v.get('engine')}.{v.get('flavour')}.{v.get('config')}.{v.get('kind')}.c{v.get('case')}.s{seed}")[:180]
         path = os.path.join(REPLAYS, prop, name + ".json")
+        if os.path.relpath(path, _OUT) in replay_paths:
+            continue  # one witness per (engine, flavour, config, kind, case) is enough
         v2 = dict(v)
         v2["prop"] = prop
         v2["tier"] = tier
